@@ -190,7 +190,13 @@ func (s *shardNodeReader) Seek(offset int64, whence int) (int64, error) {
 	case io.SeekCurrent:
 		target += offset
 	case io.SeekEnd:
-		target = s.length() + offset
+		length, err := s.length()
+		if err != nil {
+			// the length could not be worked out (a block needed to measure it failed to load):
+			// leave the reader where it was
+			return 0, err
+		}
+		target = length + offset
 	}
 	if target < 0 {
 		// leave the reader where it was
@@ -203,7 +209,7 @@ func (s *shardNodeReader) Seek(offset int64, whence int) (int64, error) {
 	return s.offset, nil
 }
 
-func (s *shardNodeFile) length() int64 {
+func (s *shardNodeFile) length() (int64, error) {
 	// see if we have size specified in the unixfs data. errors fall back to length from links
 	nodeData, err := s.unpack()
 	if err != nil || nodeData == nil {
@@ -211,32 +217,35 @@ func (s *shardNodeFile) length() int64 {
 	}
 	if nodeData.FileSize.Exists() {
 		if fs, err := nodeData.FileSize.Must().AsInt(); err == nil {
-			return int64(fs)
+			return int64(fs), nil
 		}
 	}
 
 	return s.lengthFromLinks()
 }
 
-func (s *shardNodeFile) lengthFromLinks() int64 {
+// lengthFromLinks sums the sizes of the children. A child whose size is not
+// recorded has to be loaded to be measured: a failure to do so is reported,
+// not counted as an empty child.
+func (s *shardNodeFile) lengthFromLinks() (int64, error) {
 	links, err := s.substrate.LookupByString("Links")
 	if err != nil {
-		return 0
+		return 0, err
 	}
 	size := int64(0)
 	li := links.ListIterator()
 	for !li.Done() {
 		idx, l, err := li.Next()
 		if err != nil {
-			return 0
+			return 0, err
 		}
 		ll, _, err := s.linkSize(l, int(idx))
 		if err != nil {
-			return 0
+			return 0, err
 		}
 		size += ll
 	}
-	return size
+	return size, nil
 }
 
 func (s *shardNodeFile) AsLargeBytes() (io.ReadSeeker, error) {
